@@ -57,6 +57,7 @@ var c19Vals = []c19Val{
 	{"zero", "0", "1", "0.0"},                                                 // the first value of for X = 3 {}: the first Set is legal, the others are not
 	{"inloopkey", "for i = 3 {if i == 0 {X = {i: \"a\"}}}", "{1: \"a\"}", ""}, // bound inside a loop to a literal holding the loop variable
 	{"inloopval", "for i = 1:4 {if i == 1 {X = [i, [i], {\"k\": i}]}}", "[2, [2], {\"k\": 2}]", ""},
+	{"namedfunc", "func X(x) {self}", "x => x", "func zother(x) {self}"}, // same text, another name: self and printing tell them apart
 	{"poszero", "0.0", "1.5", "(-0.0)"},                                                           // -0.0 == 0.0 but 1/X tells them apart
 	{"closure", "(n => (x => x + n))(1)", "(n => (x => x + n))(2)", "(n => (x => x + n))(3 - 2)"}, // same text, other captured value
 }
